@@ -328,6 +328,10 @@ def _safe_on_path(p, i, gated):
            (e.kind == 'subscr' and (e.callee or '').endswith('._eval_cache_unsafe')) for e in p.events[:i]) or \
             any('each(self._eval_cache_unsafe' in t for t, _ in facts):
         return True, 'strict and the record of unsafe paths is scanned before the hand-out (what the scan rejects is decided by R4c)'
+    REC = ('self._eval_cache_unsafe', 'self._eval_ctx._eval_cache_unsafe')
+    if any((t in REC and pol is False) or (t in ['not ' + x for x in REC] and pol is True) or (t in ['len(%s)' % x for x in REC] and pol is False)
+           or (t in ['len(%s) == 0' % x for x in REC] and pol is True) or (t in ['len(%s) > 0' % x for x in REC] + ['len(%s) != 0' % x for x in REC] and pol is False) for t, pol in facts):
+        return True, 'strict and the record of unsafe paths is empty: nothing evaluated so far came from an unsafe node (what is recorded is decided by R4b)'
     for e in p.events[:i]:
         if e.kind == 'call' and e.attr in ('get_node', 'evaluate_node') and e.recv is not None and e.recv.text in ('self._eval_ctx', 'self') and ('EvalContext.' + e.attr) in gated:
             return True, 'strict and a gated lookup (%s) precedes' % e.callee
